@@ -22,7 +22,8 @@ class Prop(BaseProp):
     exec_modules = ["Exec.C05"]
     exec_import = "From BHW Require Import Lib.Base Exec.Common Exec.Bip32E Exec.C05.\nFrom Coq Require Import String.\nOpen Scope string_scope."
     shard = 8
-    rule = ("Addr: private and public-only nodes (scalars 1, n-1, random; points of both parities, x with leading zero bytes) x both networks: the five "
+    rule = ("Addr: private and public-only nodes (scalars 1, n-1, random; points of both parities, x with leading zero bytes, HASH160 of the "
+            "compressed / uncompressed key with a leading zero byte) x both networks: the five "
             "BaseWallet address methods and uncompressed P2PKH; each address decoded in Coq (Base58Check / segwit) and compared with the Spec "
             "payload built from HASH160/SHA-256 of the compressed key or of the standard script. Rmd: ripemd160 on every length 0..1024 (thorough; "
             "quick: 0..200 and the 55/56/63/64/119/120/127/128 neighbourhoods) against the Coq model and OpenSSL's ripemd160 when available. "
@@ -38,6 +39,16 @@ class Prop(BaseProp):
         while pubkey_of_scalar(k)[1] != 0 and k < 3000:
             k += 1
         ks.append(k)
+        # scalars whose HASH160 (compressed resp. uncompressed key) starts with a zero byte: two leading '1's on mainnet
+        import ecdsa
+        for comp in ("compressed", "uncompressed"):
+            k = 3
+            while k < 6000:
+                vk = ecdsa.SigningKey.from_string(k.to_bytes(32, "big"), curve=ecdsa.SECP256k1).get_verifying_key()
+                if hashlib.new("ripemd160", hashlib.sha256(vk.to_string(comp)).digest()).digest()[0] == 0:
+                    break
+                k += 1
+            ks += [k, k]                   # once as a private node, once public-only
         if T:
             ks += [rng.randrange(1, N) for _ in range(12)]
         for j, k in enumerate(ks):
